@@ -915,6 +915,15 @@ class RTCPeerConnection(AsyncIOEventEmitter):
                         direction="recvonly", kind=media.kind
                     )
                 if transceiver.mid is None:
+                    # an offer that was created but never applied may have left
+                    # this m-line index on another, un-negotiated transceiver
+                    for t in self.__transceivers:
+                        if (
+                            t is not transceiver
+                            and t.mid is None
+                            and t._get_mline_index() == i
+                        ):
+                            t._set_mline_index(None)
                     transceiver._set_mid(media.rtp.muxId)
                     transceiver._set_mline_index(i)
 
